@@ -22,13 +22,11 @@ Proof. unfold bltb. rewrite bcmp_cons_same. reflexivity. Qed.
 Lemma sep_range p : forall k, in_range (p ++ [sep]) (Some (p ++ [endsep])) k = is_prefix (p ++ [sep]) k.
 Proof.
   unfold in_range. induction p as [|h p IH]; intros [|x t]; try reflexivity.
-  - cbn [app is_prefix]. unfold bleb, bltb, sep, endsep. cbn [bcmp].
-    destruct (N.compare_spec 45 x) as [E|E|E].
-    + subst. cbn. destruct t; reflexivity.
-    + assert (x =? 45 = false) as -> by (apply N.eqb_neq; lia). cbn [andb].
-      destruct (N.compare_spec x 46) as [F|F|F]; try lia; [subst; destruct t; reflexivity|reflexivity].
-    + assert (x =? 45 = false) as -> by (apply N.eqb_neq; lia). rewrite N.eqb_sym. reflexivity.
-  - cbn [app is_prefix]. unfold bleb, bltb. cbn [bcmp]. destruct (h ?= h); reflexivity.
+  - cbn [app is_prefix]. unfold sep, endsep. destruct (N.eqb_spec 45 x) as [<-|NE]; cbn [andb].
+    + unfold bleb, bltb. cbn. destruct t; reflexivity.
+    + unfold bleb, bltb. cbn [bcmp].
+      destruct (N.compare_spec 45 x) as [E|E|E]; [congruence| |reflexivity]. cbn [andb].
+      destruct (N.compare_spec x 46) as [F|F|F]; [subst; destruct t; reflexivity|lia|reflexivity].
   - cbn [app is_prefix]. destruct (N.eqb_spec h x) as [->|NE].
     + rewrite bleb_cons_same, bltb_cons_same. cbn [andb]. apply IH.
     + unfold bleb, bltb. cbn [bcmp]. rewrite (N.compare_antisym h x).
@@ -176,28 +174,103 @@ Proof.
   rewrite !bcmp_app_eqlen by (rewrite !valid_addr_length by assumption; reflexivity).
   rewrite !bcmp_cons_same. rewrite (bcmp_antisym a a0).
   unfold beqb. destruct (bcmp a a0) eqn:C; cbn [lexc CompOpp andb]; try reflexivity.
-  - destruct (be8_cons r0) as (x & t & E). rewrite E at 1. cbn [bcmp].
-    rewrite <- (app_nil_r (be8 r0)). rewrite bcmp_app_eqlen by (rewrite !be8_length; reflexivity).
-    rewrite be8_cmp by assumption. unfold N.leb. destruct (r0 ?= r); reflexivity.
-  - destruct (be8_cons r0) as (x & t & E). rewrite E. reflexivity.
+  destruct (be8_cons r0) as (x & t & E). rewrite E at 1. cbn [bcmp andb].
+  rewrite <- (app_nil_r (be8 r0)). rewrite bcmp_app_eqlen by (rewrite !be8_length; reflexivity).
+  rewrite be8_cmp by assumption. unfold N.leb. destruct (r0 ?= r); reflexivity.
 Qed.
 
 (* ---- app kv prefix scans (repaired): [xc-p, xc-(p+1)) ---- *)
-(* prefix increment: the keys in [p, p+1) are exactly the keys with prefix p *)
-Lemma prefix_incr_range p : forall pe k, all_lt256 p = true -> all_lt256 k = true ->
-  prefix_incr_rev (rev p) = Some pe -> bleb p k && bltb k pe = is_prefix p k.
+(* keyPrefixIntervalPreprocessing computed from the front *)
+Fixpoint incr (p : bytes) : option bytes :=
+  match p with
+  | [] => None
+  | h :: t => match incr t with
+              | Some t' => Some (h :: t')
+              | None => if h <? 255 then Some [h + 1] else None
+              end
+  end.
+
+Lemma incr_app_last q : forall x, incr (q ++ [x]) = if 255 <=? x then incr q else Some (q ++ [x + 1]).
 Proof.
-  induction p as [|h p IH] using rev_ind; intros pe k Vp Vk E.
-  - cbn in E. discriminate.
-  - rewrite rev_app_distr in E. cbn [rev app prefix_incr_rev] in E.
-    rewrite all_lt256_app in Vp. apply andb_true_iff in Vp as [Vp Vh]. cbn in Vh. rewrite andb_true_r in Vh. apply N.ltb_lt in Vh.
-    destruct (255 <=? h) eqn:H255.
-    + (* last byte 0xff: carry *)
-      apply N.leb_le in H255. assert (h = 255) as -> by lia.
-      specialize (IH pe).
-      (* keys with prefix p ++ [255] *)
-      revert k Vk. induction p as [|g p IHp].
-      * cbn in E. discriminate.
-      * admit.
-    + admit.
-Abort.
+  induction q as [|h q IH]; intros x.
+  - cbn. rewrite N.ltb_antisym. destruct (255 <=? x); reflexivity.
+  - cbn [app incr]. rewrite IH. destruct (255 <=? x); reflexivity.
+Qed.
+Lemma prefix_incr_rev_incr p : prefix_incr_rev (rev p) = incr p.
+Proof.
+  induction p as [|x p IH] using rev_ind; [reflexivity|].
+  rewrite rev_app_distr, incr_app_last. cbn [rev app prefix_incr_rev].
+  destruct (255 <=? x); [exact IH|]. rewrite rev_involutive. reflexivity.
+Qed.
+Lemma incr_none p : incr p = None <-> strange_prefix p = true.
+Proof.
+  unfold strange_prefix. induction p as [|h p IH]; cbn; [tauto|].
+  destruct (incr p) as [t'|].
+  - split; [discriminate|]. intros H. apply andb_true_iff in H as [_ H]. apply IH in H. discriminate.
+  - rewrite N.ltb_antisym. destruct (255 <=? h); cbn; [|split; discriminate].
+    split; intros _; [apply IH|]; reflexivity.
+Qed.
+
+Lemma ff_bleb t : forall u, strange_prefix t = true -> all_lt256 u = true -> bleb t u = is_prefix t u.
+Proof.
+  unfold strange_prefix. induction t as [|h t IH]; intros u St Vu.
+  - rewrite bleb_nil. reflexivity.
+  - cbn in St. apply andb_true_iff in St as [Hh St]. apply N.leb_le in Hh.
+    destruct u as [|y u]; [reflexivity|]. cbn in Vu. apply andb_true_iff in Vu as [Vy Vu]. apply N.ltb_lt in Vy.
+    cbn [is_prefix]. destruct (N.eqb_spec h y) as [->|NE].
+    + rewrite bleb_cons_same. apply IH; assumption.
+    + unfold bleb. cbn [bcmp]. destruct (N.compare_spec h y); try lia; try reflexivity.
+Qed.
+
+Lemma incr_range p : forall pe k, all_lt256 k = true -> incr p = Some pe -> bleb p k && bltb k pe = is_prefix p k.
+Proof.
+  induction p as [|h t IH]; intros pe k Vk E; [discriminate|].
+  cbn [incr] in E. destruct k as [|x u]; [reflexivity|].
+  cbn in Vk. apply andb_true_iff in Vk as [Vx Vu]. fold (all_lt256 u) in Vu.
+  cbn [is_prefix]. destruct (incr t) as [t'|] eqn:Et.
+  - injection E as <-. destruct (N.eqb_spec h x) as [->|NE].
+    + rewrite bleb_cons_same, bltb_cons_same. apply IH; [exact Vu|reflexivity].
+    + unfold bleb, bltb. cbn [bcmp]. rewrite (N.compare_antisym h x).
+      destruct (N.compare_spec h x); try congruence; reflexivity.
+  - destruct (h <? 255) eqn:Hh; [|discriminate]. injection E as <-. apply N.ltb_lt in Hh.
+    apply incr_none in Et.
+    destruct (N.eqb_spec h x) as [->|NE].
+    + rewrite bleb_cons_same, ff_bleb by assumption. unfold bltb. cbn [bcmp].
+      destruct (N.compare_spec x (x + 1)); [lia| |lia]. rewrite andb_true_r. reflexivity.
+    + unfold bleb, bltb. cbn [bcmp]. destruct (N.compare_spec h x) as [E|E|E]; [congruence| |reflexivity].
+      cbn [andb]. destruct (N.compare_spec x (h + 1)) as [F|F|F]; [|lia|reflexivity].
+      destruct u; reflexivity.
+Qed.
+
+Lemma bleb_trans a b c : bleb a b = true -> bleb b c = true -> bleb a c = true.
+Proof.
+  rewrite !bleb_spec. intros H1 H2 H3. apply bcmp_gt_lt in H3.
+  destruct (bcmp b c) eqn:E; [| |congruence].
+  - apply bcmp_eq in E. subst. apply H1. apply bcmp_gt_lt. exact H3.
+  - apply H1. apply bcmp_gt_lt. eapply bcmp_trans_lt; eassumption.
+Qed.
+Lemma is_prefix_bleb p : forall k, is_prefix p k = true -> bleb p k = true.
+Proof.
+  induction p as [|h p IH]; intros k H; [apply bleb_nil|].
+  destruct k as [|x k]; [discriminate|]. cbn in H. apply andb_true_iff in H as [E H]. apply N.eqb_eq in E. subst.
+  rewrite bleb_cons_same. apply IH, H.
+Qed.
+
+Lemma range_app_prefix p pe k : prefix_incr_rev (rev p) = Some pe -> valid_key k = true ->
+  in_range (appKvKey p) (Some (appKvKey pe)) (enc k) = is_app_with_prefix p k.
+Proof.
+  intros E V. rewrite prefix_incr_rev_incr in E. unfold in_range, appKvKey. destruct k; try reflexivity.
+  cbn [valid_key] in V. unfold_keys. rewrite !bleb_cons_same, !bltb_cons_same. cbn [is_app_with_prefix].
+  apply incr_range; assumption.
+Qed.
+(* with a cursor at or past the prefix start: [xc-cursor, xc-(p+1)) *)
+Lemma range_app_prefix_cursor p pe cursor k : prefix_incr_rev (rev p) = Some pe -> bleb p cursor = true ->
+  valid_key k = true ->
+  in_range (appKvKey cursor) (Some (appKvKey pe)) (enc k) = is_app_with_prefix p k && bleb cursor (app_key k).
+Proof.
+  intros E C V. rewrite prefix_incr_rev_incr in E. unfold in_range, appKvKey. destruct k; try reflexivity.
+  cbn [valid_key] in V. unfold_keys. rewrite !bleb_cons_same, !bltb_cons_same. cbn [is_app_with_prefix app_key].
+  rewrite <- (incr_range p pe k V E).
+  destruct (bleb cursor k) eqn:B; [|rewrite andb_false_r; reflexivity].
+  rewrite (bleb_trans p cursor k C B). rewrite andb_true_r. reflexivity.
+Qed.
